@@ -1298,6 +1298,9 @@ class QvmCpu:
         start -= 1
 
         try:
+            if not str1:
+                # nothing can be found in an empty string
+                raise ValueError
             index = str1.index(str2, start)
         except ValueError:
             index = 0
